@@ -85,7 +85,17 @@ def native_confirm(nat, v):
         if f.get('open') or v['id'].endswith('/open'): os.mkdir(os.path.join(d, 'out.c3d'))          # cannot be opened for writing
         else: os.symlink('/dev/full', os.path.join(d, 'out.c3d'))                                    # every write fails with ENOSPC at flush
         e = dict(os.environ); e['VP_REPLAY'] = os.path.join(d, 'replay.txt')
-        r = subprocess.run([exe], cwd=d, env=e, capture_output=True, timeout=60)
+        pre = None
+        if v['id'].endswith('/close') or v['id'].endswith('/write'):
+            # a failure that only surfaces late: learn the file size from a fault-free run, then cap the file size one byte
+            # below it (SIGXFSZ ignored), so that the last flush - inside close() for small files - is refused
+            os.remove(os.path.join(d, 'out.c3d'))
+            r0 = subprocess.run([exe], cwd=d, env=e, capture_output=True, timeout=60)
+            size = os.path.getsize(os.path.join(d, 'out.c3d')); os.remove(os.path.join(d, 'out.c3d'))
+            import resource, signal
+            def pre():
+                signal.signal(signal.SIGXFSZ, signal.SIG_IGN); resource.setrlimit(resource.RLIMIT_FSIZE, (size - 1, size - 1))
+        r = subprocess.run([exe], cwd=d, env=e, capture_output=True, timeout=60, preexec_fn=pre)
         obs = parse_native(r.stdout.decode('latin1'))
         out = dict(api.sections(obs).get('save', [])).get('outcome')
         return out == 0 if 'fault-not-reported' in v['id'] else None
